@@ -214,6 +214,15 @@ func (x *ctx) predicates(lp *curve.EdwardsPoint, want ref.Pt, rng *rand.Rand, de
 				x.usable("SetMontgomery(round trip)", back, want, det)
 			}
 		}
+		// every call above only READS p (predicates, encoding, comparison, conversion): the object - all four extended
+		// coordinates of it, in whatever scaling it was - must still be the same point when it is used as an operand next
+		if k%2 == 1 || k == 4 || !gx.Available {
+			pb, _ := p.MarshalBinary()
+			_ = pb
+			var c curve.CompressedEdwardsY
+			c.SetEdwardsPoint(p)
+			x.usable(fmt.Sprintf("read-only calls (scaling %d)", k), p, want, det)
+		}
 	}
 }
 
